@@ -122,29 +122,55 @@ pub async fn open_coll(db: &AndaDB, set: IndexSet) -> Result<Arc<Collection>, DB
             description: "fixture F".to_string(),
         },
         async move |c: &mut Collection| {
-            for (flag, fields) in IndexSet::btree_list() {
-                if set.has(flag) {
-                    c.create_btree_index_nx(fields).await?;
-                } else {
-                    c.remove_btree_index(fields).await?;
+            // The order in which the callback creates / removes indexes is the application's
+            // business, and it matters for crash safety (a removal persists the collection
+            // metadata eagerly, registering whatever was created before it): the order is a
+            // function of the target set, so that different workloads use different orders.
+            #[derive(Clone, Copy)]
+            enum StepKind {
+                Btree(u16, &'static [&'static str]),
+                Bm25,
+                Hnsw,
+            }
+            let mut steps: Vec<StepKind> = IndexSet::btree_list().iter().map(|(f, fields)| StepKind::Btree(*f, *fields)).collect();
+            steps.push(StepKind::Bm25);
+            steps.push(StepKind::Hnsw);
+            let n = steps.len();
+            steps.rotate_left((set.0 as usize).wrapping_mul(5) % n);
+            if (set.0 / 8) % 2 == 1 {
+                steps.reverse();
+            }
+            for step in steps {
+                match step {
+                    StepKind::Btree(flag, fields) => {
+                        if set.has(flag) {
+                            c.create_btree_index_nx(fields).await?;
+                        } else {
+                            c.remove_btree_index(fields).await?;
+                        }
+                    }
+                    StepKind::Bm25 => {
+                        if set.has(IndexSet::BM25) {
+                            c.create_bm25_index_nx(&["body"]).await?;
+                        } else {
+                            c.remove_bm25_index(&["body"]).await?;
+                        }
+                    }
+                    StepKind::Hnsw => {
+                        if set.has(IndexSet::HNSW) {
+                            c.create_hnsw_index_nx(
+                                "embedding",
+                                HnswConfig {
+                                    dimension: DIM,
+                                    ..Default::default()
+                                },
+                            )
+                            .await?;
+                        } else {
+                            c.remove_hnsw_index("embedding").await?;
+                        }
+                    }
                 }
-            }
-            if set.has(IndexSet::BM25) {
-                c.create_bm25_index_nx(&["body"]).await?;
-            } else {
-                c.remove_bm25_index(&["body"]).await?;
-            }
-            if set.has(IndexSet::HNSW) {
-                c.create_hnsw_index_nx(
-                    "embedding",
-                    HnswConfig {
-                        dimension: DIM,
-                        ..Default::default()
-                    },
-                )
-                .await?;
-            } else {
-                c.remove_hnsw_index("embedding").await?;
             }
             Ok(())
         },
